@@ -38,6 +38,11 @@ Proof.
   apply andb_prop in H. destruct H as [_ H]. rewrite forallb_forall in H. apply H. assumption.
 Qed.
 
+(* the columns activation.init reads under the names thermalXS, resonance, Thalf_hrs, ... are the
+   columns the header lines of the data file label so *)
+Lemma columns_as_labelled : columns_match_header act_column_names activation_dat = true.
+Proof. vm_compute. reflexivity. Qed.
+
 (* census of the reaction kinds *)
 Lemma rows_census : on_rows the_rows (fun rows =>
   (Nat.eqb (length (filter is_b rows)) 29 && Nat.eqb (length (filter is_2n rows)) 63
